@@ -2,13 +2,14 @@
 # Development helper: confirms a seeded change with a JS demo run through the CLI (with / without the change).
 # usage: tools/seedconfirm-js.sh <out-dir> <demo.js relative to out-dir/demo> [extra cli args]
 set -e
+TAG=${SEEDTAG:-seed}   # SEEDTAG selects a private worktree/mirror/target (several confirmations can run side by side)
 OUT=$1; JS=$2; shift 2
-[ -d /tmp/seed-target ] || cp -r /tmp/mut-base-target /tmp/seed-target
+[ -d /tmp/$TAG-target ] || cp -r /tmp/mut-base-target /tmp/$TAG-target
 for mode in with without; do
-  git -C /tmp/wt-seed checkout -q -- . && git -C /tmp/wt-seed clean -fdq && git -C /tmp/wt-seed checkout -q --detach "$(git -C /repo rev-parse HEAD)"
-  [ $mode = with ] && git -C /tmp/wt-seed apply "$OUT/patch.diff"
-  (cd /tmp/wt-seed && CARGO_TARGET_DIR=/tmp/seed-target cargo build --offline -p boa_cli 2>&1 | tail -1)
+  git -C /tmp/wt-$TAG checkout -q -- . && git -C /tmp/wt-$TAG clean -fdq && git -C /tmp/wt-$TAG checkout -q --detach "$(git -C /repo rev-parse HEAD)"
+  [ $mode = with ] && git -C /tmp/wt-$TAG apply "$OUT/patch.diff"
+  (cd /tmp/wt-$TAG && CARGO_TARGET_DIR=/tmp/$TAG-target cargo build --offline -p boa_cli 2>&1 | tail -1)
   echo "== demo $mode change"
-  (cd "$OUT/demo" && /tmp/seed-target/debug/boa "$@" "$JS" 2>&1 | tail -12) || true
+  (cd "$OUT/demo" && /tmp/$TAG-target/debug/boa "$@" "$JS" 2>&1 | tail -12) || true
 done
-git -C /tmp/wt-seed checkout -q -- . && git -C /tmp/wt-seed clean -fdq
+git -C /tmp/wt-$TAG checkout -q -- . && git -C /tmp/wt-$TAG clean -fdq
